@@ -115,12 +115,13 @@ func c16r5(c *RC) {
 			return true
 		}
 		iv := expr(in.Lhs[0])
-		if strings.ReplaceAll(expr(in.Rhs[0]), " ", "") != "len("+list+")-1" {
+		if t := strings.ReplaceAll(expr(in.Rhs[0]), " ", ""); t != "len("+list+")-1" && t != "-1+len("+list+")" {
 			return true
 		}
 		be, ok := ast.Unparen(f.Cond).(*ast.BinaryExpr)
 		post, ok2 := f.Post.(*ast.IncDecStmt)
-		if ok && ok2 && be.Op == token.GEQ && expr(be.X) == iv && expr(be.Y) == "0" && post.Tok == token.DEC && expr(post.X) == iv {
+		downTo0 := ok && (be.Op == token.GEQ && expr(be.X) == iv && expr(be.Y) == "0" || be.Op == token.LEQ && expr(be.Y) == iv && expr(be.X) == "0")
+		if downTo0 && ok2 && post.Tok == token.DEC && expr(post.X) == iv {
 			rev = true
 			revLoop = f
 		}
@@ -145,9 +146,9 @@ func c16r5(c *RC) {
 				return false
 			}
 			if ifs, ok := m.(*ast.IfStmt); ok {
-				if be, ok := ast.Unparen(ifs.Cond).(*ast.BinaryExpr); ok && be.Op == token.NEQ && expr(be.Y) == "nil" {
+				if tx, nonNil, ok := nilTest(ifs.Cond); ok && nonNil {
 					for _, st := range ifs.Body.List {
-						if r, ok := st.(*ast.ReturnStmt); ok && len(r.Results) == 1 && expr(r.Results[0]) == expr(be.X) {
+						if r, ok := st.(*ast.ReturnStmt); ok && len(r.Results) == 1 && expr(r.Results[0]) == tx {
 							stops = true
 						}
 					}
